@@ -1,1 +1,803 @@
-//! C30: not implemented yet.
+//! C30 — NTS-KE messages are parsed totally, boundedly and round-trip.
+//!
+//! Engine E-IN + read deviations. Streams come from a grammar (all record sequences up to
+//! a length over a record alphabet, grammar-directed seed messages with every single
+//! record insertion, oversize streams around the 4096-byte limit), every stream is
+//! parsed by the three real parsers `NtsRecord::parse`, `Request::parse`,
+//! `KeyExchangeResponse::parse` through a harness `AsyncRead` that delivers as much as
+//! asked except at scripted read-call indices where it returns one byte only (short read)
+//! or `Pending` (and wakes itself); every placement of <= 2 such deviations is enumerated
+//! (bound 0, 1, 2), and every truncation (prefix) of the stream.
+//!
+//! Oracle (statement): never panics / always terminates; a message parser never pulls
+//! more than 4096 bytes from the reader, and no parser pulls bytes beyond the end of
+//! the record / the End-Of-Message record it parsed (wire framing); the result is the
+//! same for every chunking; a truncated message is never accepted; an accepted value
+//! serialises, and the serialisation parses back to the same value (and same bytes).
+use std::pin::Pin;
+use std::task::{Context, Poll};
+
+use tokio::io::{AsyncRead, ReadBuf};
+
+use super::common::{self, Ctx};
+use crate::nts::verif_probe::gj::{self as rig, Parsed, Rec};
+
+// ------------------------------------------------------------------ reader
+
+#[derive(Clone, Copy, PartialEq, Eq, Debug)]
+enum Dev {
+    Short,
+    Pending,
+}
+
+struct ChunkReader<'a> {
+    data: &'a [u8],
+    pos: usize,
+    devs: [(u32, Dev); 2],
+    ndev: usize,
+    calls: u32,
+    pulled: usize,
+    /// bytes delivered per call (only kept when `log` is set)
+    log: Option<Vec<u32>>,
+}
+
+impl<'a> ChunkReader<'a> {
+    fn new(data: &'a [u8], devs: &[(u32, Dev)], log: bool) -> Self {
+        let mut d = [(u32::MAX, Dev::Short); 2];
+        for (i, x) in devs.iter().enumerate() {
+            d[i] = *x;
+        }
+        ChunkReader { data, pos: 0, devs: d, ndev: devs.len(), calls: 0, pulled: 0, log: if log { Some(Vec::new()) } else { None } }
+    }
+}
+
+impl AsyncRead for ChunkReader<'_> {
+    fn poll_read(self: Pin<&mut Self>, cx: &mut Context<'_>, buf: &mut ReadBuf<'_>) -> Poll<std::io::Result<()>> {
+        let me = self.get_mut();
+        let call = me.calls;
+        me.calls += 1;
+        let mut dev = None;
+        for i in 0..me.ndev {
+            if me.devs[i].0 == call {
+                dev = Some(me.devs[i].1);
+            }
+        }
+        if dev == Some(Dev::Pending) {
+            if let Some(l) = me.log.as_mut() {
+                l.push(0);
+            }
+            cx.waker().wake_by_ref();
+            return Poll::Pending;
+        }
+        let mut n = (me.data.len() - me.pos).min(buf.remaining());
+        if dev == Some(Dev::Short) && n > 1 {
+            n = 1;
+        }
+        buf.put_slice(&me.data[me.pos..me.pos + n]);
+        me.pos += n;
+        me.pulled += n;
+        if let Some(l) = me.log.as_mut() {
+            l.push(n as u32);
+        }
+        Poll::Ready(Ok(()))
+    }
+}
+
+#[derive(Clone, Copy, PartialEq, Eq, Debug, Hash)]
+enum Target {
+    Record,
+    Request,
+    Response,
+}
+const TARGETS: [Target; 3] = [Target::Record, Target::Request, Target::Response];
+
+struct Run {
+    result: Result<Option<Parsed>, String>, // Err = panic, Ok(None) = no progress
+    pulled: usize,
+    calls: u32,
+    log: Vec<u32>,
+}
+
+fn run(target: Target, data: &[u8], devs: &[(u32, Dev)], log: bool) -> Run {
+    let mut reader = ChunkReader::new(data, devs, log);
+    let result = common::catch(|| match target {
+        Target::Record => rig::run_sync(rig::parse_record(&mut reader), 1 << 20),
+        Target::Request => rig::run_sync(rig::parse_request(&mut reader), 1 << 20),
+        Target::Response => rig::run_sync(rig::parse_response(&mut reader), 1 << 20),
+    });
+    Run { result, pulled: reader.pulled, calls: reader.calls, log: reader.log.take().unwrap_or_default() }
+}
+
+// ------------------------------------------------------------------ framing reference
+
+/// End offset (exclusive) of what a parser of `target` may touch in `stream`, by the wire
+/// framing alone: the first record for `Record`; everything up to and including the
+/// first End-Of-Message record for the message parsers, never more than 4096.
+/// Second value: whether that unit is completely inside the stream.
+fn unit_end(target: Target, stream: &[u8]) -> (usize, bool) {
+    let mut off = 0usize;
+    loop {
+        if stream.len() < off + 4 {
+            let e = stream.len();
+            return (if target == Target::Record { e } else { e.min(4096) }, false);
+        }
+        let ty = u16::from_be_bytes([stream[off], stream[off + 1]]) & 0x7fff;
+        let len = u16::from_be_bytes([stream[off + 2], stream[off + 3]]) as usize;
+        let end = off + 4 + len;
+        let complete = end <= stream.len();
+        if target == Target::Record {
+            return (end.min(stream.len()), complete);
+        }
+        if !complete {
+            return (stream.len().min(4096), false);
+        }
+        if ty == 0 {
+            return (end.min(4096), end <= 4096);
+        }
+        off = end;
+        if off >= 4096 {
+            return (4096, false);
+        }
+    }
+}
+
+// ------------------------------------------------------------------ per-thread accumulator
+
+#[derive(Default)]
+struct Counts {
+    evaluations: u64,
+    streams: u64,
+    accepted: [u64; 3],
+    rejected: [u64; 3],
+    truncations: u64,
+    dev1: u64,
+    dev2: u64,
+    roundtrips: u64,
+    max_pulled_msg: u64,
+    max_calls: u64,
+    distinct: Vec<u64>,
+    pending: u64,
+}
+
+struct Acc<'a> {
+    ctx: &'a Ctx,
+    n: Counts,
+    /// violations reported by this worker per class: only the first few get their (possibly
+    /// very long) description and trace rendered, `Ctx` keeps 3 per class anyway
+    reported: std::collections::HashMap<&'static str, u32>,
+}
+
+impl<'a> std::ops::Deref for Acc<'a> {
+    type Target = Counts;
+    fn deref(&self) -> &Counts {
+        &self.n
+    }
+}
+
+impl<'a> std::ops::DerefMut for Acc<'a> {
+    fn deref_mut(&mut self) -> &mut Counts {
+        &mut self.n
+    }
+}
+
+impl<'a> Acc<'a> {
+    fn new(ctx: &'a Ctx) -> Self {
+        Acc { ctx, n: Counts::default(), reported: std::collections::HashMap::new() }
+    }
+    fn viol(&mut self, class: &'static str, what: impl FnOnce() -> String, trace: impl FnOnce() -> String) {
+        let n = self.reported.entry(class).or_insert(0);
+        *n += 1;
+        if *n <= 4 {
+            self.ctx.violation(class, what(), trace());
+        } else {
+            self.ctx.violation(class, "", "");
+        }
+    }
+    fn flush(&mut self) {
+        let c = self.ctx;
+        let n = std::mem::take(&mut self.n);
+        c.add("evaluations", n.evaluations);
+        c.add("transitions", n.evaluations);
+        c.add("streams", n.streams);
+        for (i, name) in ["record", "request", "response"].iter().enumerate() {
+            c.add(&format!("accepted_{name}"), n.accepted[i]);
+            c.add(&format!("rejected_{name}"), n.rejected[i]);
+        }
+        c.add("truncation_runs", n.truncations);
+        c.add("deviation1_runs", n.dev1);
+        c.add("deviation2_runs", n.dev2);
+        c.add("roundtrips", n.roundtrips);
+        c.max("max_bytes_pulled_by_message_parser", n.max_pulled_msg);
+        c.max("max_read_calls", n.max_calls);
+        c.distinct_many(n.distinct);
+    }
+    fn tick(&mut self) {
+        self.pending += 1;
+        if self.pending >= 2048 {
+            self.flush();
+        }
+    }
+}
+
+impl Drop for Acc<'_> {
+    fn drop(&mut self) {
+        self.flush();
+    }
+}
+
+// ------------------------------------------------------------------ the check of one stream
+
+#[derive(Clone, Copy)]
+struct Plan {
+    /// deviation bound on the full stream
+    dev: u8,
+    /// parse every proper prefix
+    truncate: bool,
+    /// deviation bound applied to every prefix as well
+    trunc_dev: u8,
+    /// count the stream as distinct only when something accepts it
+    distinct_only_accepted: bool,
+}
+
+fn tidx(t: Target) -> usize {
+    match t {
+        Target::Record => 0,
+        Target::Request => 1,
+        Target::Response => 2,
+    }
+}
+
+fn trace_of(target: Target, data: &[u8], devs: &[(u32, Dev)]) -> String {
+    let d: Vec<String> = devs.iter().map(|(k, d)| format!("{}{}", if *d == Dev::Short { "s" } else { "p" }, k)).collect();
+    format!("{:?};{};{}", target, d.join("+"), common::hex(data))
+}
+
+fn show(p: &Option<Parsed>) -> String {
+    match p {
+        None => "<no progress>".to_string(),
+        Some(Ok((v, _))) => {
+            let mut s = v.clone();
+            if s.len() > 160 {
+                s.truncate(160);
+                s.push('…');
+            }
+            format!("Ok({s})")
+        }
+        Some(Err(e)) => format!("Err({e})"),
+    }
+}
+
+/// Oracles that apply to every single run. `full` is the whole stream the data is a
+/// prefix of (for the framing reference). Returns the parse result (None on panic).
+fn check_run(acc: &mut Acc<'_>, target: Target, data: &[u8], devs: &[(u32, Dev)], r: &Run) -> Option<Option<Parsed>> {
+    acc.evaluations += 1;
+    acc.max_calls = acc.max_calls.max(r.calls as u64);
+    let res = match &r.result {
+        Err(e) => {
+            acc.viol("C30:panic", || format!("{target:?} parser panicked: {e}"), || trace_of(target, data, devs));
+            return None;
+        }
+        Ok(v) => v.clone(),
+    };
+    if res.is_none() {
+        acc.viol("C30:no-progress", || format!("{target:?} parser still pending after 2^20 polls"), || trace_of(target, data, devs));
+    }
+    let (end, complete) = unit_end(target, data);
+    if target != Target::Record {
+        acc.max_pulled_msg = acc.max_pulled_msg.max(r.pulled as u64);
+        if r.pulled > 4096 {
+            acc.viol("C30:pulled-more-than-4096", || format!("{target:?} parser pulled {} bytes from the reader", r.pulled), || trace_of(target, data, devs));
+        }
+    }
+    if r.pulled > end {
+        acc.viol(
+            "C30:overread",
+            || format!("{target:?} parser pulled {} bytes but its unit ends at offset {end}", r.pulled),
+            || trace_of(target, data, devs));
+    }
+    if let Some(Ok((v, _))) = &res {
+        if !complete {
+            acc.viol(
+                "C30:accept-truncated",
+                || format!("{target:?} parser accepted {} although the stream ends inside the unit / beyond 4096 bytes", show(&res)),
+                || trace_of(target, data, devs));
+        } else if r.pulled != end {
+            acc.viol(
+                "C30:underread",
+                || format!("{target:?} parser accepted {v:.80} after pulling {} bytes; the unit is {end} bytes long (rest would be taken for the next message)", r.pulled),
+                || trace_of(target, data, devs));
+        }
+    }
+    Some(res)
+}
+
+fn roundtrip(acc: &mut Acc<'_>, target: Target, data: &[u8], value: &str, ser: &[u8]) {
+    acc.roundtrips += 1;
+    if ser.starts_with(b"!serialize") {
+        acc.viol("C30:accepted-not-serialisable", || format!("{target:?}: accepted value {value:.120} fails to serialise ({})", String::from_utf8_lossy(ser)), || trace_of(target, data, &[]));
+        return;
+    }
+    let r = run(target, ser, &[], false);
+    acc.evaluations += 1;
+    match &r.result {
+        Ok(Some(Ok((v2, ser2)))) if v2 == value && ser2 == ser => {}
+        other => {
+            let got = match other {
+                Ok(p) => show(p),
+                Err(e) => format!("panic {e}"),
+            };
+            acc.viol(
+                "C30:roundtrip",
+                || format!("{target:?}: accepted {value:.120}; serialised to {}; that parses to {got}", common::hex(&ser[..ser.len().min(64)])),
+                || trace_of(target, data, &[]));
+        }
+    }
+    if target != Target::Record && ser.len() > 4096 {
+        acc.viol("C30:roundtrip", || format!("{target:?}: re-serialisation is {} bytes (> 4096)", ser.len()), || trace_of(target, data, &[]));
+    }
+}
+
+fn deviations(acc: &mut Acc<'_>, target: Target, data: &[u8], base: &Run, base_res: &Option<Parsed>, bound: u8) {
+    if bound == 0 {
+        return;
+    }
+    for k in 0..base.calls {
+        for d in [Dev::Short, Dev::Pending] {
+            if d == Dev::Short && base.log.get(k as usize).copied().unwrap_or(0) <= 1 {
+                continue; // a one-byte read cannot be shorter
+            }
+            let devs1 = [(k, d)];
+            let r1 = run(target, data, &devs1, bound >= 2);
+            acc.dev1 += 1;
+            if let Some(res1) = check_run(acc, target, data, &devs1, &r1) {
+                if &res1 != base_res {
+                    acc.viol(
+                        "C30:chunking-dependent",
+                        || format!("{target:?}: one read gives {}, with {:?} at read call {k} it gives {}", show(base_res), d, show(&res1)),
+                        || trace_of(target, data, &devs1));
+                }
+            }
+            if bound >= 2 {
+                for k2 in (k + 1)..r1.calls {
+                    for d2 in [Dev::Short, Dev::Pending] {
+                        if d2 == Dev::Short && r1.log.get(k2 as usize).copied().unwrap_or(0) <= 1 {
+                            continue;
+                        }
+                        let devs2 = [(k, d), (k2, d2)];
+                        let r2 = run(target, data, &devs2, false);
+                        acc.dev2 += 1;
+                        if let Some(res2) = check_run(acc, target, data, &devs2, &r2) {
+                            if &res2 != base_res {
+                                acc.viol(
+                                    "C30:chunking-dependent",
+                                    || format!("{target:?}: one read gives {}, with {:?}@{k} and {:?}@{k2} it gives {}", show(base_res), d, d2, show(&res2)),
+                                    || trace_of(target, data, &devs2));
+                            }
+                        }
+                    }
+                }
+            }
+        }
+    }
+}
+
+/// `stream` = message bytes; a trailer is appended for the full-stream runs so that reading
+/// past the end of the message is observable.
+fn check_stream(acc: &mut Acc<'_>, stream: &[u8], plan: Plan, targets: &[Target]) -> [bool; 3] {
+    const TRAILER: [u8; 8] = [0x80, 0x01, 0x00, 0x02, 0x00, 0x00, 0xee, 0xee];
+    let mut full = stream.to_vec();
+    full.extend_from_slice(&TRAILER);
+    acc.streams += 1;
+    let mut accepted = [false; 3];
+    for &t in targets {
+        let base = run(t, &full, &[], plan.dev > 0);
+        let Some(base_res) = check_run(acc, t, &full, &[], &base) else { continue };
+        match &base_res {
+            Some(Ok((v, ser))) => {
+                acc.accepted[tidx(t)] += 1;
+                accepted[tidx(t)] = true;
+                roundtrip(acc, t, &full, v, ser);
+            }
+            _ => acc.rejected[tidx(t)] += 1,
+        }
+        deviations(acc, t, &full, &base, &base_res, plan.dev);
+        if plan.truncate {
+            // prefixes that end before the unit does (longer ones equal the full-stream run)
+            let limit = unit_end(t, stream).0.min(stream.len());
+            for cut in 0..limit {
+                let data = &stream[..cut];
+                let b = run(t, data, &[], plan.trunc_dev > 0);
+                acc.truncations += 1;
+                let Some(b_res) = check_run(acc, t, data, &[], &b) else { continue };
+                if let Some(Ok((v, ser))) = &b_res {
+                    // a prefix that is itself a complete unit (e.g. the first record)
+                    roundtrip(acc, t, data, v, ser);
+                }
+                deviations(acc, t, data, &b, &b_res, plan.trunc_dev);
+            }
+        }
+    }
+    if !plan.distinct_only_accepted || accepted.iter().any(|a| *a) {
+        acc.distinct.push(common::hash_of(&stream));
+    }
+    acc.tick();
+    accepted
+}
+
+// ------------------------------------------------------------------ alphabet
+
+#[derive(Clone, Copy, Debug)]
+struct Sym {
+    ty: u16, // 0..=15
+    critical: bool,
+    size: usize,
+    fill: u8, // 0 = meaningful, 1 = 0xff
+}
+
+fn cyc(pat: &[u8], n: usize) -> Vec<u8> {
+    (0..n).map(|i| pat[i % pat.len()]).collect()
+}
+
+fn body(ty: u16, size: usize, fill: u8) -> Vec<u8> {
+    if fill == 1 {
+        return vec![0xff; size];
+    }
+    match ty {
+        1 | 9 => cyc(&[0x00, 0x00, 0x80, 0x01, 0x12, 0x34], size),
+        2 => cyc(&[0, 1], size),
+        3 => cyc(&[0, 7], size),
+        4 => cyc(&[0, 15, 0, 17, 0, 99], size),
+        10 => cyc(&[0, 15, 0, 32, 0, 17, 0, 64], size),
+        7 => cyc(&[0x10, 0x1b], size),
+        6 | 13 | 14 => cyc("a\u{e9}-ntp.org:".as_bytes(), size),
+        _ => (0..size).map(|i| (i * 7 + 1) as u8).collect(),
+    }
+}
+
+impl Sym {
+    fn rec(&self) -> Rec {
+        Rec { ty: self.ty | if self.critical { 0x8000 } else { 0 }, body: body(self.ty, self.size, self.fill) }
+    }
+}
+
+const SIZES: [usize; 6] = [0, 1, 2, 3, 4, 64];
+
+fn alphabet_full() -> Vec<Sym> {
+    let mut v = Vec::new();
+    for ty in 0..16u16 {
+        for critical in [false, true] {
+            for size in SIZES {
+                for fill in [0u8, 1] {
+                    if size == 0 && fill == 1 {
+                        continue;
+                    }
+                    v.push(Sym { ty, critical, size, fill });
+                }
+            }
+        }
+    }
+    v
+}
+
+fn alphabet_reduced() -> Vec<Sym> {
+    let mut v = Vec::new();
+    for ty in 0..16u16 {
+        for size in [0usize, 2, 4, 64] {
+            v.push(Sym { ty, critical: true, size, fill: 0 });
+        }
+    }
+    v
+}
+
+fn eom() -> Rec {
+    Rec::new(0x8000, &[])
+}
+
+fn seq_stream(alpha: &[Sym], word: &[usize]) -> Vec<u8> {
+    let mut recs: Vec<Rec> = word.iter().map(|i| alpha[*i].rec()).collect();
+    recs.push(eom());
+    rig::enc(&recs)
+}
+
+// ------------------------------------------------------------------ seeds
+
+fn seeds() -> Vec<(&'static str, Vec<Rec>)> {
+    let cookie = |i: u8| Rec::new(5, &vec![i; 100]);
+    let mut full_resp = vec![Rec::new(0x8001, &[0, 0]), Rec::new(0x8004, &[0, 15])];
+    for i in 0..8 {
+        full_resp.push(cookie(i + 1));
+    }
+    full_resp.push(Rec::new(0x8006, b"ntp.example.org"));
+    full_resp.push(Rec::new(0x8007, &[0, 123]));
+    full_resp.push(Rec::new(8, &[]));
+    full_resp.push(eom());
+    let mut nine = vec![Rec::new(0x8001, &[0x80, 1]), Rec::new(0x8004, &[0, 17])];
+    for i in 0..9 {
+        nine.push(cookie(i + 1));
+    }
+    nine.push(eom());
+    let k32: Vec<u8> = (0..64).collect();
+    let k64: Vec<u8> = (0..128).collect();
+    vec![
+        ("req-ke", vec![Rec::new(0x8001, &[0x80, 1, 0, 0]), Rec::new(0x8004, &[0, 17, 0, 15]), Rec::new(13, b"a.example"), Rec::new(13, b"b"), eom()]),
+        ("req-fk256", vec![Rec::new(14, b"tok"), Rec::new(0x800c, &k32), Rec::new(0x8001, &[0, 0]), Rec::new(0x8004, &[0, 15]), Rec::new(8, &[]), eom()]),
+        ("req-fk512", vec![Rec::new(14, b"tok"), Rec::new(0x800c, &k64), Rec::new(0x8001, &[0x80, 1]), Rec::new(0x8004, &[0, 17]), eom()]),
+        ("req-support", vec![Rec::new(14, b"tok"), Rec::new(0x8009, &[]), Rec::new(0x800a, &[]), Rec::new(8, &[]), eom()]),
+        ("req-support-p", vec![Rec::new(14, b""), Rec::new(0x8009, &[0, 0]), eom()]),
+        ("resp-full", full_resp),
+        ("resp-9cookies", nine),
+        ("resp-error", vec![Rec::new(0x8002, &[0, 1]), eom()]),
+        ("resp-warning", vec![Rec::new(0x8003, &[0, 9]), eom()]),
+        ("resp-no-proto", vec![Rec::new(0x8001, &[]), eom()]),
+        ("resp-no-alg", vec![Rec::new(0x8001, &[0, 0]), Rec::new(0x8004, &[]), eom()]),
+        ("resp-supports", vec![Rec::new(0x800a, &[0, 15, 0, 32, 0, 17, 0, 64]), Rec::new(0x8009, &[0, 0, 0x80, 1]), eom()]),
+    ]
+}
+
+// ------------------------------------------------------------------ oversize
+
+/// Filler of exactly `n` bytes made of ignorable records. kind 0: one (or two) big unknown
+/// records; 1: many 8-byte unknown records; 2: 104-byte cookies (response) ; 3: server-deny
+/// records (request).
+fn filler(kind: u8, n: usize) -> Option<Vec<Rec>> {
+    let mut out = Vec::new();
+    let mut left = n;
+    let (ty, unit_body): (u16, Vec<u8>) = match kind {
+        0 => (0x0020, vec![0xab; 65535]),
+        1 => (0x0021, vec![1, 2, 3, 4]),
+        2 => (5, vec![0xc0; 100]),
+        _ => (13, b"denied.example.org".to_vec()),
+    };
+    while left > 0 {
+        if left < 4 {
+            return None;
+        }
+        let unit = 4 + unit_body.len();
+        // never leave a remainder of 1..=3 bytes
+        let take = if left >= unit && (left - unit == 0 || left - unit >= 4) { unit } else if left <= unit { left } else { left - 4 };
+        let b = take - 4;
+        out.push(Rec { ty, body: unit_body[..b.min(unit_body.len())].to_vec() });
+        if b > unit_body.len() {
+            return None;
+        }
+        left -= take;
+    }
+    Some(out)
+}
+
+struct Oversize {
+    name: String,
+    stream: Vec<u8>,
+    target: Target,
+    /// acceptance demanded iff the whole message fits in 4096 bytes
+    total: usize,
+    acceptable: bool,
+}
+
+fn oversize_streams() -> Vec<Oversize> {
+    let mut v = Vec::new();
+    let core = [Rec::new(0x8001, &[0, 0]), Rec::new(0x8004, &[0, 15])];
+    for total in [4095usize, 4096, 4097, 4100, 70000] {
+        let n = total - 16;
+        for kind in 0..4u8 {
+            for core_first in [true, false] {
+                let Some(f) = filler(kind, n) else { continue };
+                let mut recs = Vec::new();
+                if core_first {
+                    recs.extend_from_slice(&core);
+                }
+                recs.extend(f);
+                if !core_first {
+                    recs.extend_from_slice(&core);
+                }
+                recs.push(eom());
+                let stream = rig::enc(&recs);
+                assert_eq!(stream.len(), total);
+                for target in [Target::Request, Target::Response] {
+                    let ignorable = match (kind, target) {
+                        (2, Target::Request) => false,  // cookies are not allowed in a request
+                        (3, Target::Response) => false, // server-deny is not allowed in a response
+                        _ => true,
+                    };
+                    v.push(Oversize { name: format!("total={total} filler={kind} core_first={core_first}"), stream: stream.clone(), target, total, acceptable: ignorable });
+                }
+            }
+        }
+    }
+    // no End-Of-Message at all, and an End-Of-Message whose body crosses the limit
+    let endless = rig::enc(&filler(1, 70000).unwrap());
+    let mut big_eom = core.to_vec();
+    big_eom.push(Rec::new(0x8000, &vec![0; 5000]));
+    for target in [Target::Request, Target::Response] {
+        v.push(Oversize { name: "no-eom 70000".into(), stream: endless.clone(), target, total: 70000, acceptable: false });
+        v.push(Oversize { name: "eom body 5000".into(), stream: rig::enc(&big_eom), target, total: 5016, acceptable: true });
+    }
+    v
+}
+
+// ------------------------------------------------------------------ driver
+
+fn parse_devs(s: &str) -> Vec<(u32, Dev)> {
+    s.split('+')
+        .filter(|x| !x.is_empty())
+        .filter_map(|x| {
+            let d = if x.starts_with('s') { Dev::Short } else { Dev::Pending };
+            x[1..].parse().ok().map(|k| (k, d))
+        })
+        .collect()
+}
+
+fn replay(ctx: &Ctx, trace: &str) -> String {
+    // "<Target>;<devs>;<hex stream>"
+    let parts: Vec<&str> = trace.split(';').collect();
+    if parts.len() != 3 {
+        return "bad trace".into();
+    }
+    let target = match parts[0] {
+        "Record" => Target::Record,
+        "Request" => Target::Request,
+        _ => Target::Response,
+    };
+    let devs = parse_devs(parts[1]);
+    let Some(data) = common::unhex(parts[2]) else { return "bad hex".into() };
+    let mut acc = Acc::new(ctx);
+    let base = run(target, &data, &[], false);
+    let base_res = check_run(&mut acc, target, &data, &[], &base);
+    let r = run(target, &data, &devs[..devs.len().min(2)], false);
+    let res = check_run(&mut acc, target, &data, &devs[..devs.len().min(2)], &r);
+    if let (Some(a), Some(b)) = (&base_res, &res) {
+        if a != b {
+            ctx.violation("C30:chunking-dependent", format!("one read gives {}, scripted chunking gives {}", show(a), show(b)), trace);
+        }
+        if let Some(Ok((v, ser))) = a {
+            roundtrip(&mut acc, target, &data, v, ser);
+        }
+    }
+    format!(
+        "whole: {} pulled={} | scripted: {} pulled={} calls={}",
+        base_res.map(|r| show(&r)).unwrap_or("panic".into()),
+        base.pulled,
+        res.map(|r| show(&r)).unwrap_or("panic".into()),
+        r.pulled,
+        r.calls
+    )
+}
+
+#[test]
+fn check() {
+    let ctx = Ctx::new("C30");
+    if let Some(t) = common::replay_trace() {
+        let a = replay(&ctx, &t);
+        let b = replay(&ctx, &t);
+        common::report_replay("C30", &a, &b, ctx.violation_count() > 0);
+        return;
+    }
+    let quick = ctx.quick();
+    ctx.rule(
+        "record alphabet S = 16 types (0..=15; 11 and 15 unassigned) x critical bit x body size {0,1,2,3,4,64} x fill {meaningful, 0xff} \
+         (352 symbols), reduced alphabet Sr = 16 types x size {0,2,4,64} (64 symbols). Streams: (1) every sequence of <=1 symbols of S + EOM \
+         with every truncation, deviation bound 2 everywhere; (2) every sequence of 2 symbols of S + EOM, every truncation, deviation bound 1 \
+         (thorough 2, truncations bound 1); (3) every sequence of 3 symbols of Sr (thorough: of S) + EOM, whole-buffer read (thorough: Sr also \
+         with truncations and deviation bound 1); (4) 12 seed messages (KE / fixed-key 256+512 / support requests, full / 9-cookie / error / \
+         warning / no-overlap / supports responses) with every truncation at deviation bound 2, and every insertion of one S symbol at every \
+         position at bound 1; (5) oversize: totals {4095,4096,4097,4100,70000} x 4 filler shapes x core first/last, no-EOM, EOM body crossing \
+         the limit, deviation bound 1 (thorough: + every truncation). Each stream goes through NtsRecord::parse, Request::parse and KeyExchangeResponse::parse. Deviation = \
+         a read call returns 1 byte, or Pending. Distinct & non-trivial = distinct stream bytes (for (3): only streams some parser accepts).",
+    );
+    ctx.assume("bytes 'consumed' are observed as bytes delivered by the harness reader, which always offers everything it has (most adversarial for over-reading)");
+    ctx.assume("value equality is equality of a canonical rendering of all fields (Debug of NtsRecord; field-wise for Request/KeyExchangeResponse incl. key bytes)");
+    ctx.assume("the per-message limit applies to Request::parse and KeyExchangeResponse::parse; a single record may be up to 4+65535 bytes when parsed on its own");
+
+    let full = alphabet_full();
+    let reduced = alphabet_reduced();
+    ctx.set("alphabet_full", full.len() as u64);
+    ctx.set("alphabet_reduced", reduced.len() as u64);
+
+    // (1) length <= 1
+    {
+        let plan = Plan { dev: 2, truncate: true, trunc_dev: 2, distinct_only_accepted: false };
+        let n = 1 + full.len() as u64;
+        common::par_for_with(n, 4, || Acc::new(&ctx), |acc, i| {
+            let word: Vec<usize> = if i == 0 { vec![] } else { vec![i as usize - 1] };
+            check_stream(acc, &seq_stream(&full, &word), plan, &TARGETS);
+        });
+        ctx.set("len1_sequences", n);
+    }
+    // (2) length 2
+    {
+        let plan = if quick {
+            Plan { dev: 1, truncate: true, trunc_dev: 0, distinct_only_accepted: false }
+        } else {
+            Plan { dev: 2, truncate: true, trunc_dev: 1, distinct_only_accepted: false }
+        };
+        let k = full.len();
+        let n = common::pow(k, 2);
+        common::par_for_with(n, 64, || Acc::new(&ctx), |acc, i| {
+            let word = common::word_of(i, k, 2);
+            let acc3 = check_stream(acc, &seq_stream(&full, &word), plan, &TARGETS);
+            if i % 20011 == 1234 {
+                ctx.sample(format!("seq {:?} {:?}: accepted by record/request/response = {:?}", full[word[0]], full[word[1]], acc3));
+            }
+        });
+        ctx.set("len2_sequences", n);
+    }
+    // (3) length 3
+    {
+        let alpha = if quick { &reduced } else { &full };
+        let plan = Plan { dev: 0, truncate: false, trunc_dev: 0, distinct_only_accepted: true };
+        let k = alpha.len();
+        let n = common::pow(k, 3);
+        common::par_for_with(n, 512, || Acc::new(&ctx), |acc, i| {
+            let word = common::word_of(i, k, 3);
+            // the first record alone was covered by (1); only the message parsers see more than it
+            check_stream(acc, &seq_stream(alpha, &word), plan, &[Target::Request, Target::Response]);
+        });
+        ctx.set("len3_sequences", n);
+        if !quick {
+            if ctx.over_budget() {
+                ctx.cap_hit("length-3 sequences over the reduced alphabet with truncations and deviation bound 1 not started; whole-buffer pass over the full alphabet complete");
+            } else {
+                let plan = Plan { dev: 1, truncate: true, trunc_dev: 0, distinct_only_accepted: true };
+                let k = reduced.len();
+                let n = common::pow(k, 3);
+                common::par_for_with(n, 256, || Acc::new(&ctx), |acc, i| {
+                    let word = common::word_of(i, k, 3);
+                    check_stream(acc, &seq_stream(&reduced, &word), plan, &[Target::Request, Target::Response]);
+                });
+                ctx.set("len3_reduced_deviation1_sequences", n);
+            }
+        }
+    }
+    // (4) seeds
+    {
+        let seeds = seeds();
+        let plan = Plan { dev: 2, truncate: true, trunc_dev: if quick { 1 } else { 2 }, distinct_only_accepted: false };
+        common::par_for_with(seeds.len() as u64, 1, || Acc::new(&ctx), |acc, i| {
+            let (name, recs) = &seeds[i as usize];
+            let a = check_stream(acc, &rig::enc(recs), plan, &TARGETS);
+            ctx.sample(format!("seed {name}: accepted by record/request/response = {a:?}"));
+        });
+        // insertions
+        let mut jobs = Vec::new();
+        for (si, (_, recs)) in seeds.iter().enumerate() {
+            for pos in 0..recs.len() {
+                for sym in 0..full.len() {
+                    jobs.push((si, pos, sym));
+                }
+            }
+        }
+        let plan = Plan { dev: 1, truncate: false, trunc_dev: 0, distinct_only_accepted: false };
+        common::par_for_with(jobs.len() as u64, 32, || Acc::new(&ctx), |acc, i| {
+            let (si, pos, sym) = jobs[i as usize];
+            let mut recs = seeds[si].1.clone();
+            recs.insert(pos, full[sym].rec());
+            check_stream(acc, &rig::enc(&recs), plan, &[Target::Request, Target::Response]);
+        });
+        ctx.set("seed_insertion_streams", jobs.len() as u64);
+    }
+    // (5) oversize
+    {
+        let streams = oversize_streams();
+        common::par_for_with(streams.len() as u64, 1, || Acc::new(&ctx), |acc, i| {
+            let o = &streams[i as usize];
+            let plan = Plan { dev: 1, truncate: !quick, trunc_dev: 0, distinct_only_accepted: false };
+            let a = check_stream(acc, &o.stream, plan, &[o.target]);
+            let accepted = a[tidx(o.target)];
+            let fits = o.total <= 4096;
+            if accepted && !fits {
+                ctx.violation("C30:oversize-accepted", format!("{:?} accepted a {}-byte message ({})", o.target, o.total, o.name), format!("{:?};;{}", o.target, common::hex(&o.stream)));
+            }
+            if o.acceptable && fits && !accepted {
+                ctx.violation("C30:limit-below-4096", format!("{:?} rejected a well-formed {}-byte message ({})", o.target, o.total, o.name), format!("{:?};;{}", o.target, common::hex(&o.stream)));
+            }
+            ctx.inc(if accepted { "oversize_accepted" } else { "oversize_rejected" });
+            if o.total == 4096 || o.total == 4097 {
+                ctx.sample(format!("oversize {:?} {}: accepted={accepted}", o.target, o.name));
+            }
+        });
+        ctx.set("oversize_streams", streams.len() as u64);
+    }
+    ctx.set("states", ctx.get("streams"));
+    ctx.exhaustive(true);
+    ctx.finish();
+}
